@@ -118,13 +118,21 @@ CLAIMED = {
           'A-grammar (each begin action\'s mid-rule symbol occurs in one production whose end action pops: read from the generated production comments of lalr.rs, not proved), FeelIterator::run reaches the scope only through its handler. '
           'Not decided: repeatability of values (whole-history), failed parses.',
  },
+ 'C10': {
+  'text': 'Partial. Verus proves on the real consume_name body, for every input and every parsing scope: the collected parts are exactly the tokenisation of the input from the cursor (each part is a maximal word of name part '
+          'characters or one additional symbol, consecutive parts separated only by whitespace, recorded end positions exact, the scan stops at the first character that cannot belong to a name); and the returned name is made of the '
+          'LONGEST prefix of these parts whose flattened text is a key of the scope, with the cursor put back right behind that prefix - or, when no prefix is bound, of all parts (the two tweaks for `item` and for the variable before `in` '
+          'are spelled out as separate cases). The string code deciding equality of flattened texts is covered only by a BOUNDED stand-in (all names of up to 5 parts over 3 words and 6 symbols, through parse + evaluate on the real code). '
+          'Scope lookup (innermost binding wins) is proved in unit scope.',
+  'design_ref': 'DESIGN.md section 5 C10',
+  'note': 'Trusted: Verus/Z3; uninterpreted flatten_name_parts / Name::from / flatten_keys; HashSet<String> key model. Not decided: every grammar position where a name may occur (parser), termination.',
+ },
 }
 NOT_APPLICABLE = {
  'C02': TODO,
  'C04': 'the property is about dyn Fn closures stored in RwLock<HashMap> registries calling one another along the requirement graph; no first-order function carries it, Verus has no support for dyn Fn fields / std RwLock guards, Kani cannot bound the graph (DESIGN.md section 6)',
 
  'C07': 'deciding code is str/format!/C decNumber string conversion (scientific_to_plain, decQuadToString); Verus has no specs for these str APIs and Kani/CBMC did not finish a 3-character instance in 15 min (DESIGN.md section 6)',
- 'C10': TODO,
  'C19': TODO,
  'C20': 'a schedule property: Kani has no thread support and Verus would need the code rewritten onto its own permission/atomic types; Send+Sync is checked by rustc, not by this family (DESIGN.md section 6)',
 }
